@@ -5,10 +5,13 @@
   * `hIter_budget_irrelevant` : a pass of the loop does not depend on the budget unless the budget test fires — so the
     budgeted run is a prefix of the unbudgeted one (bit-identical on the implementation because the Float instance is
     the same function).
+  * `BdfCtl.limits_le_hmax` (Proofs/BdfLemmas.lean) : the step BDF's limiter hands to a pass satisfies |h| ≤ h_max, or it
+    was stretched to land on xend and then |h| ≤ stretch·h_max (ordered field; the control model X-bdf runs beside Rust).
   * `startMeter_first_step` : a given first_step h0 makes the first trial step |h0|·posneg.
 -/
 import IvpModel.Proofs.CtlField
 import IvpModel.Proofs.CtlRk
+import IvpModel.Proofs.BdfLemmas
 
 namespace Ctl
 variable {α : Type} [Num α] {n : Nat}
